@@ -279,6 +279,31 @@ def run(ctx) -> Report:
     check("Atan2", {}, [opd("a", a), opd("b", b)], cm["Atan2"](a, b), "scalars", real_only=True)
     check("MinValue", {}, [opd("a", a), opd("b", b)], cm["MinValue"](a, b), "scalars", real_only=True)
     check("MaxValue", {}, [opd("a", a), opd("b", b)], cm["MaxValue"](a, b), "scalars", real_only=True)
+    # special points: operands that evaluate to the literal values -1, 0, 2 (branches of an evaluate method that
+    # test an operand's value - `a == 0`, `b < 0` - are taken with constant operands, not with symbolic ones)
+    def math_init(cname):
+        cls = prog.get_class("ufl.mathfunctions." + cname)
+
+        def init(ip, selfobj, cls=cls):
+            ip.call_function(prog.lookup(cls, "__init__"), [selfobj.attrs["ufl_operands"][0]], {}, self_obj=selfobj)
+
+        return init
+
+    n_points = 0
+    for cname, arity in [("Sum", 2), ("Product", 2), ("Division", 2), ("Power", 2), ("Atan2", 2), ("MinValue", 2), ("MaxValue", 2), ("Abs", 1), ("Conj", 1), ("Real", 1), ("Imag", 1)] + [(m_, 1) for m_ in MATH]:
+        for vals in itertools.product((-1, 0, 2), repeat=arity):
+            ops = [T.scalar(sym.const(v)) for v in vals]
+            try:
+                oracle = cm[cname](*ops)
+                val = sym.evaluate(oracle.get(), {})
+                if val != val:
+                    continue
+            except Exception:
+                continue  # the operation is not defined at this point
+            n_points += 1
+            check(cname, {}, [opd(f"p{k}", o_) for k, o_ in enumerate(ops)], oracle, f"operands evaluating to {vals}", init=math_init(cname) if cname in MATH else None, real_only=True)
+    if n_points < 80:
+        raise AnalysisError(f"only {n_points} special points evaluated")
     # conditions: the comparison used is the one the class denotes
     for cname, op in (("EQ", "=="), ("NE", "!="), ("LT", "<"), ("GT", ">"), ("LE", "<="), ("GE", ">=")):
         cls = prog.get_class("ufl.conditional." + cname)
